@@ -408,7 +408,28 @@ def _in_contract(d):
     return True
 
 
+_prelude_done = False
+
+
+def _prelude():
+    """once per worker process, BEFORE any judged encoding: other encoder objects are created whose rule lists
+    START with a built-in name and continue with further entries (the other built-in set, a custom rule).
+    Encoders created afterwards must not be affected: every encoder expands its own rule list."""
+    global _prelude_done
+    if _prelude_done:
+        return
+    _prelude_done = True
+    try:
+        from pylatexenc import latexencode as le
+        rule = le.UnicodeToLatexConversionRule(le.RULE_DICT, {0x2460: '(1)', ord('a'): 'A'})
+        for rules in (['defaults', 'unicode-xml'], ['unicode-xml', 'defaults'], ['defaults', rule], ['unicode-xml', rule]):
+            le.UnicodeToLatexEncoder(conversion_rules=rules, unknown_char_policy='keep').unicode_to_latex('a\u2460\u0328')
+    except Exception:
+        pass
+
+
 def oracle(c):
+    _prelude()
     d = c['desc']
     if d['kind'] == 'helper':
         from pylatexenc import latexencode as le
